@@ -329,6 +329,20 @@ func c11Receivers(quick bool) []c11Recv {
 			c11Recv{fmt.Sprintf("Condition/keyword-ids/mode%d", mode), func() any {
 				return ro(stackage.Cond("kw", stackage.Eq, stackage.And().SetID("_random").Push("x")).SetID("_Random"))
 			}},
+			c11Recv{fmt.Sprintf("Condition/condition-expr/mode%d", mode), func() any {
+				return ro(stackage.Cond("outer", stackage.Eq, stackage.Cond("cn", stackage.Eq, "jesse")))
+			}},
+			c11Recv{fmt.Sprintf("Condition/condition-alias-expr-over-stack/mode%d", mode), func() any {
+				return ro(stackage.Cond("outer", stackage.Ne, CondAlias(stackage.Cond("inner", stackage.Ge, stackage.Or().Push("x", "y")))))
+			}},
+			c11Recv{fmt.Sprintf("Stack-of-conditions-in-conditions/mode%d", mode), func() any {
+				inner := stackage.Cond("cn", stackage.Eq, "jesse")
+				s := stackage.And().Push(stackage.Cond("outer", stackage.Eq, inner), inner, stackage.Cond("o2", stackage.Lt, stackage.Cond("i2", stackage.Gt, stackage.Cond("i3", stackage.Eq, stackage.List().Push("deep")))))
+				if mode == 1 {
+					s.SetReadOnly(true)
+				}
+				return s
+			}},
 			c11Recv{fmt.Sprintf("Condition/alias-expr/mode%d", mode), func() any {
 				return ro(stackage.Cond("kw", userOp{"~=", "ctx"}, StackAliasS(stackage.List().Push("p", "q"))))
 			}},
